@@ -311,6 +311,7 @@ class Interp:
         self.on_unknown_call = None
         self.index_read_hook = None  # fn(interp, st, heap model, index value) -> value
         self.cov = set()  # (instance id, bb) executed at least once
+        self.unop_hooks = []  # fn(st, op, a, tid) -> value | None
         self.binop_hooks = []  # fn(st, op, a, b, tid) -> value | None (extension values such as ordinals)
         self.overflow_hooks = []  # fn(st, base_op, a, b, tid) -> (result, flag) | None
 
@@ -677,7 +678,51 @@ class Interp:
         st.edom[e] = nd
         return True
 
+    def maybe_mask(self, st, v, depth=0):
+        """Over-approximation of the bits that can be 1 in a non-negative value (or None)."""
+        if isinstance(v, Conc):
+            return v.v if v.v >= 0 else None
+        if isinstance(v, Sym):
+            d = st.cons.get(v.id)
+            if d is None or iset.is_empty(d) or iset.lo(d) < 0:
+                return None
+            return (1 << iset.hi(d).bit_length()) - 1
+        if isinstance(v, Expr) and depth < 64:
+            if v.op == "BitAnd":
+                a, b = self.maybe_mask(st, v.args[0], depth + 1), self.maybe_mask(st, v.args[1], depth + 1)
+                if a is None:
+                    return b
+                if b is None:
+                    return a
+                return a & b
+            if v.op in ("BitOr", "BitXor"):
+                a, b = self.maybe_mask(st, v.args[0], depth + 1), self.maybe_mask(st, v.args[1], depth + 1)
+                if a is None or b is None:
+                    return None
+                return a | b
+            if v.op == "Not" and v.ty is not None and v.ty[0] > 1 and not v.ty[1]:
+                return (1 << v.ty[0]) - 1
+            if v.op in ("Shl", "ShlUnchecked") and isinstance(v.args[1], Conc):
+                a = self.maybe_mask(st, v.args[0], depth + 1)
+                if a is None:
+                    return None
+                m = a << v.args[1].v
+                return m & ((1 << v.ty[0]) - 1) if v.ty else m
+            if v.op in ("Shr", "ShrUnchecked") and isinstance(v.args[1], Conc):
+                a = self.maybe_mask(st, v.args[0], depth + 1)
+                return None if a is None else a >> v.args[1].v
+            if v.op in ("cast", "id"):
+                return self.maybe_mask(st, v.args[0], depth + 1)
+            d = self.expr_dom(st, v) if depth < 8 else None
+            if d is not None and not iset.is_empty(d) and iset.lo(d) >= 0:
+                return (1 << iset.hi(d).bit_length()) - 1
+        return None
+
     def expr_dom0(self, st, e):
+        if e.op == "BitAnd":
+            m = self.maybe_mask(st, e)
+            if m is not None:
+                return ((0, m),)
         ds = [self.dom(st, a) for a in e.args]
         if any(d is None or iset.is_empty(d) for d in ds):
             return None if e.ty is None else iset.full(*e.ty)
@@ -764,6 +809,8 @@ class Interp:
             return e.v
         if isinstance(e, Sym):
             return env[e.id]
+        if hasattr(e, "evaluate"):
+            return e.evaluate(self, env)
         if isinstance(e, Expr):
             if e.op in FUNCS:
                 return FUNCS[e.op](*[self.eval_expr(a, env) for a in e.args])
@@ -876,6 +923,10 @@ class Interp:
         return Agg(None, 0, (res, flag))
 
     def unop(self, st, op, a, tid):
+        for h in self.unop_hooks:
+            r = h(st, op, a, tid)
+            if r is not None:
+                return r
         ty = self.scalar_ty(tid)
         if op == "PtrMetadata":
             return self.ptr_metadata(st, a)
